@@ -96,4 +96,16 @@ PROPS = {
         "level_note": "Partial: the file system is modelled as per-file prefixes of the final content with the observed order of manifest writes — no reordering of writes across files by the kernel, no fsync semantics, no torn sectors inside a prefix. 'Every failing write is reported' is established by the budget runs (oracle), not by a theorem.",
         "assumptions": ["a crash leaves each file as a prefix of what was written to it, files appear in program order", "RLIMIT_FSIZE failures stand in for a full disk"],
     },
+    "C05": {
+        "runs": [run("mvcc-backup", 160, 3000)],
+        "level_text": "Theorems: backup_restore_exact (for every comparator, checksum function, reachable state, open snapshot — latest or older, with other versions physically present —, refresh rate and ANY pivots: loading what StoreToDisk writes yields exactly the snapshot's items in order), composed from visitor_partition, frame round-trip and load_intact; restored_refines (the restored instance refines the set/snapshot specification for every later history). Tied to the code by real round trips: StoreToDisk of a random open snapshot (concurrency 1/2/8, both comparators, both memory modes), the real pivots fed to the model, shard files and checksums compared byte for byte with the model's frames, LoadFromDisk into a fresh instance compared with the model's load, then a further history on the restored instance compared with the model started from the restored state.",
+        "level_note": "Full for a quiescent backup without delta interleaving. Delta interleaving and writers/GC running during the backup are exercised only by the oracle (fault and stress runs); the goroutine/channel handshake of the delta writers is not modelled. Items must be non-empty (format terminator) and < 2^32 bytes.",
+        "assumptions": ["no concurrent mutation during the modelled backup", "items non-empty and shorter than 2^32 bytes", "os/bufio/encoding/json trusted"],
+    },
+    "C07": {
+        "runs": [run("mvcc-alloc", 250, 5000), run("mvcc-backup", 80, 1500)],
+        "level_text": "Theorems: ledger (in every reachable state of every history each node allocated by a successful Put is either still linked in the store or was handed to reclamation exactly once — never both, never twice, nothing unallocated), all_closed_clean (with every snapshot closed, GC + drained workers leave only live versions), and the barrier theorems (every handed-over object is destructed exactly once, nothing pending at quiescence, all schedules). Tied to the code with the guard allocator (each block its own mmap, PROT_NONE after free, addresses never reused): after all handles are closed and Close() returned there must be no live block, no double free, no free of an unknown pointer — for instances built by Put and by LoadFromDisk; the physical store at quiescence is compared with the model.",
+        "level_note": "Full at operation granularity for the node/item ledger. Which goroutine frees and when is abstracted (the barrier contract is C16/C17); blocks of rejected Puts, the store sentinels and the blocks allocated by LoadFromDisk are covered by the allocator oracle, not by the ledger theorem.",
+        "assumptions": ["barrier contract (C16/C17)", "operation-granularity interleaving"],
+    },
 }
